@@ -96,6 +96,16 @@ class SlotResolver:
                 "fields": sorted(self.cmap[acc]["fields"]), "wfields": sorted(self.cmap[acc]["wfields"])}
 
     def resolve(self, arg, depth=0, const_seen=False):
+        if depth == 0:
+            # the argument is used here: locals met while resolving it are bindings judged against this point (FnModel.origin)
+            self.fm._use_pin = strip(arg).get("b")
+            try:
+                return self._resolve(arg, 0, const_seen)
+            finally:
+                self.fm._use_pin = None
+        return self._resolve(arg, depth, const_seen)
+
+    def _resolve(self, arg, depth=0, const_seen=False):
         n = strip(arg)
         if depth > 12:
             raise AnalysisBroken("slot resolution too deep at " + self.facts.loc(arg))
@@ -185,7 +195,12 @@ class SlotResolver:
                     if x.get("k") in ("CallExpr", "CXXMemberCallExpr") and tbf.callee_name(x) in ("emplace_back", "push_back"):
                         vb = tbf.call_base(x)
                         if vb is not None and strip(vb).get("did") == did:
-                            e = self.resolve(tbf.call_args(x)[0], depth + 1)
+                            pin0 = getattr(self.fm, "_use_pin", None)
+                            self.fm._use_pin = x.get("b")        # the element is used where it is appended
+                            try:
+                                e = self.resolve(tbf.call_args(x)[0], depth + 1)
+                            finally:
+                                self.fm._use_pin = pin0
                             e["fill_node"] = x
                             elems.append(e)
                 isconst = bool(re.search(r"reference_wrapper<\s*const\b", t))
